@@ -710,6 +710,8 @@ OpResult Hist::run_op(const HOp& op0) {
 
 void Hist::final_checks() {
   std::set<int> done;
+  // every tree the client still holds is described once (the property lists describe among the things threads do concurrently)
+  { std::set<int> seen; for (size_t i = 0; i < pool.size() && !failed() && !g_run.foreign_seen; i++) { int x = pool[i]; if (!seen.insert(x).second || !serialisable(x) || !afford(x, TREE_BYTES_MAX, 20000)) continue; uint64_t dh = describe_to_sink(nodes[x].impl); g_log.ev("describe-text", dh); stat_add("final_describes"); } }
   for (size_t i = 0; i < pool.size() && !failed() && !g_run.foreign_seen; i++) {
     int x = pool[i]; if (done.count(x) || !serialisable(x)) continue; done.insert(x);
     if (!afford(x, TREE_BYTES_MAX, 250000)) continue;
